@@ -77,6 +77,8 @@ def s_case(draw):
             "places": places, "mirrors": mirrors, "dtype": draw(st.sampled_from(DTYPES)),
             # destination nodata handed to the warp for bool rasters (None: not given; 0 / False: given explicitly)
             "bool_nodata": draw(st.sampled_from(["none", "zero", "false"])),
+            # float images: NaN pixels inside the source, no source nodata declared, explicit non-NaN destination nodata
+            "float_nan": draw(st.sampled_from([False, False, True])),
             # documented planning options; whatever they are, a reported paste must still be a paste
             "opts": draw(st.sampled_from([{}, {}, {}, {"padding": 0}, {"padding": 1}, {"padding": 3}, {"align": 0}, {"align": 4}, {"padding": 1, "align": 2}]))}
 
@@ -183,6 +185,13 @@ def o_paste(case, T):
     src_px = _src_pixels((Hs, Ws), dtype)
     isf = dtype.startswith("float")
     fill = np.nan if isf else (False if dtype == "bool" else 0)
+    fnan = isf and bool(case.get("float_nan"))
+    if fnan:
+        # a paste moves a NaN pixel across like any other value; with no source nodata declared so does the warp
+        src_px = src_px.copy()
+        src_px.ravel()[::5] = np.nan
+        fill = -9999.0
+        T.cls("float_nan_pixels_explicit_dst_nodata")
     A_img = np.full((Hd, Wd), fill, dtype=dtype)
     # the regions are slices a caller applies as they are: do exactly that (numpy semantics - a negative or reversed
     # bound is not "empty" to numpy) before any reasoning about them
@@ -223,7 +232,7 @@ def o_paste(case, T):
             B_img = rio_reproject(src_px, B_img, src, dst, "nearest", dst_nodata=(0 if bn == "zero" else False))
             T.cls("bool_explicit_nodata")
     else:
-        B_img = rio_reproject(src_px, B_img, src, dst, "nearest", dst_nodata=(None if isf else 0))
+        B_img = rio_reproject(src_px, B_img, src, dst, "nearest", dst_nodata=(fill if fnan else None if isf else 0))
     # ambiguity mask: exact source coordinate of the destination centre within 1e-6 px of a source pixel edge
     amb = np.zeros((Hd, Wd), dtype=bool)
     lim = Fr(1, 10**6)
